@@ -44,4 +44,34 @@ PROPS = {
         "assumptions": COMMON_ASSUME + ["diffmatchpatch is summarised by: rune sequences equal <=> single Equal chunk (DESIGN 5.5)"],
         "outside": ["appearance of inline highlights (colour mode)", "line contents longer than one byte in the op-code harness (only equality of lines is observed by the code)"],
     },
+    "C03": {
+        "runs": [
+            {"harness": "H_C03_addressing", "quick": {"pre": 2, "calls": 3}, "thorough": {"pre": 11, "calls": 3}},
+            {"harness": "H_C03_isolation", "reach": ["add", "update"], "quick": {"frames": 2, "n": 3}, "thorough": {"frames": 3, "n": 3}},
+        ],
+        "bounds": {"quick": "addressing: 2 tests from a pool of 4 names with prefix relations, 0..2 earlier calls each, 1..3 observed calls, each passing or failing; "
+                            "isolation: files of 0..2 frames with bodies <= 3 arbitrary bytes, one add or update with a body <= 3 bytes",
+                   "thorough": "0..11 earlier calls (ordinals above 9); files of 0..3 frames"},
+        "assumptions": COMMON_ASSUME + ["pre-existing files are well formed: bodies have no whole line `---` and no CR at end of line"],
+        "outside": ["interleavings of concurrently running tests (see C06)", "ids that occur as a whole body line of another entry (known finding K2, see C01)"],
+    },
+    "C04": {
+        "runs": [
+            {"harness": "H_C04_update", "reach": ["changed", "unchanged"], "quick": {"frames": 2, "n": 2}, "thorough": {"frames": 2, "n": 3}},
+            {"harness": "H_C04_standalone", "quick": {"n": 3}, "thorough": {"n": 4}},
+        ],
+        "bounds": {"quick": "1..2 entries, each changed or not, old/new ASCII texts <= 2 bytes; standalone: texts <= 3 bytes",
+                   "thorough": "texts <= 3 bytes; standalone <= 4"},
+        "assumptions": COMMON_ASSUME + ["no CR at end of line"],
+        "outside": ["MatchJSON/MatchYAML entries in update mode (same storage path as MatchSnapshot)"],
+    },
+    "C05": {
+        "runs": [
+            {"harness": "H_C05_match", "reach": ["missing", "equal", "different"], "quick": {"envlen": 5}, "thorough": {"envlen": 6}},
+        ],
+        "bounds": {"quick": "CI x Update option x UPDATE_SNAPS (any string of <= 5 bytes) x 5 entry points x entry state",
+                   "thorough": "UPDATE_SNAPS any string of <= 6 bytes"},
+        "assumptions": COMMON_ASSUME + ["ciinfo.IsCI is an arbitrary Boolean fixed at start-up"],
+        "outside": [],
+    },
 }
